@@ -195,6 +195,10 @@ def substitute_entity(
     else:
         cp = n2cp.get(ent)
 
+        if cp is None and ent == 'apos':
+            # predefined in XML, but not part of the HTML 4 entity table
+            cp = 39
+
         if cp:
             return chr(cp)
         else:
